@@ -59,27 +59,57 @@ theorem dec_enc_inv (L : Laws C) {k k' : C.Key} {n n' m m' : Bytes}
     · rw [L.dec_nonce k k' n n' m hn] at h; cases h
   · rw [L.dec_key k k' n n' m hk] at h; cases h
 
+theorem gcmOpen_ok_inv {k : C.Key} {n : Bytes} {c : Option C.Ct} {m : Bytes} (h : gcmOpen C k n c = .ok m) :
+    n.length = nonceSize ∧ ∃ ct, c = some ct ∧ C.dec k n ct = some m := by
+  unfold gcmOpen at h
+  split at h
+  · cases h
+  · next hn =>
+    split at h
+    · cases h
+    · next ct =>
+      split at h
+      · cases h
+      · next m' hm => cases h; exact ⟨Decidable.not_not.mp hn, ct, rfl, hm⟩
+
+/-- `gcm.Open` panics exactly on a nonce of the wrong length -/
+theorem gcmOpen_isPanic (k : C.Key) (n : Bytes) (c : Option C.Ct) :
+    (gcmOpen C k n c).isPanic = true ↔ n.length ≠ nonceSize := by
+  unfold gcmOpen
+  split
+  · next h => exact ⟨fun _ => h, fun _ => rfl⟩
+  · next h =>
+    constructor
+    · intro hp
+      split at hp
+      · cases hp
+      · split at hp <;> cases hp
+    · intro hn; exact absurd hn h
+
+theorem gcmOpen_not_panic (k : C.Key) {n : Bytes} (c : Option C.Ct) (hn : n.length = nonceSize) :
+    (gcmOpen C k n c).isPanic = false := by
+  cases hp : (gcmOpen C k n c).isPanic with
+  | false => rfl
+  | true => exact absurd hn ((gcmOpen_isPanic k n c).mp hp)
+
 theorem decrypt_ok_inv {p : Bytes} {f : File C} {m : Bytes} (h : decrypt C p f = .ok m) :
     ∃ k ct, deriveKey C p (fld f.salt) = some k ∧ (fld f.nonce).length = nonceSize ∧ f.ct = some ct ∧
       C.dec k (fld f.nonce) ct = some m := by
   unfold decrypt at h
   split at h
   · cases h
-  · next k hk =>
-    split at h
+  · split at h
     · cases h
-    · next hn =>
+    · next k hk =>
       split at h
       · cases h
-      · next ct hct =>
-        split at h
-        · cases h
-        · next m' hm =>
-          cases h
-          exact ⟨k, ct, hk, Decidable.not_not.mp hn, hct, hm⟩
+      · next hn =>
+        obtain ⟨_, ct, hct, hm⟩ := gcmOpen_ok_inv h
+        exact ⟨k, ct, hk, Decidable.not_not.mp hn, hct, hm⟩
 
 theorem load_ok_inv {p : Bytes} {f : File C} {s : Signer C} (h : load C p f = .ok s) :
-    ∃ m, decrypt C p f = .ok m ∧ C.parsePriv m = some s.sk ∧ C.parsePub (fld f.pub) = some s.pk := by
+    ∃ m, decrypt C p f = .ok m ∧ C.parsePriv m = some s.sk ∧ C.parsePub (fld f.pub) = some s.pk ∧
+      C.pubBytes (C.pubOf s.sk) = C.pubBytes s.pk := by
   unfold load at h
   split at h
   · cases h
@@ -91,22 +121,28 @@ theorem load_ok_inv {p : Bytes} {f : File C} {s : Signer C} (h : load C p f = .o
       split at h
       · cases h
       · next pk hpk =>
-        cases h
-        exact ⟨m, hm, hsk, hpk⟩
+        split at h
+        · next he => cases h; exact ⟨m, hm, hsk, hpk, he⟩
+        · cases h
 
-theorem decrypt_not_panic (p : Bytes) (f : File C) (hn : (fld f.nonce).length = nonceSize)
-    (hp : p ≠ [] ∨ fld f.salt ≠ []) : (decrypt C p f).isPanic = false := by
-  have hk := deriveKey_isSome (C := C) p (fld f.salt) hp
+/-- the guards of `decrypt` make both panic branches unreachable: every passphrase, every file -/
+theorem decrypt_not_panic (p : Bytes) (f : File C) : (decrypt C p f).isPanic = false := by
   unfold decrypt
-  cases hd : deriveKey C p (fld f.salt) with
-  | none => rw [hd] at hk; cases hk
-  | some k =>
-    simp only [hn, ne_eq, not_true_eq_false, if_false]
-    cases f.ct with
-    | none => rfl
-    | some ct =>
+  split
+  · rfl
+  · next h1 =>
+    have hp : p ≠ [] ∨ fld f.salt ≠ [] := by
+      by_cases hp : p = []
+      · right; intro hs; exact h1 ⟨by rw [hs]; rfl, by rw [hp]; rfl⟩
+      · exact Or.inl hp
+    have hk := deriveKey_isSome (C := C) p (fld f.salt) hp
+    cases hd : deriveKey C p (fld f.salt) with
+    | none => rw [hd] at hk; cases hk
+    | some k =>
       simp only
-      cases hd2 : C.dec k (fld f.nonce) ct <;> rfl
+      split
+      · rfl
+      · next h2 => exact gcmOpen_not_panic k f.ct (Decidable.not_not.mp h2)
 
 theorem load_isPanic_eq (p : Bytes) (f : File C) : (load C p f).isPanic = (decrypt C p f).isPanic := by
   unfold load
@@ -117,16 +153,81 @@ theorem load_isPanic_eq (p : Bytes) (f : File C) : (load C p f).isPanic = (decry
     simp only
     cases C.parsePriv m with
     | none => rfl
-    | some sk => cases C.parsePub (fld f.pub) <;> rfl
+    | some sk =>
+      cases C.parsePub (fld f.pub) with
+      | none => rfl
+      | some pk => simp only; split <;> rfl
+
+theorem gcmOpen_enc (L : Laws C) (k : C.Key) (n m : Bytes) (hn : n.length = nonceSize) :
+    gcmOpen C k n (some (C.enc k n m)) = .ok m := by
+  unfold gcmOpen
+  simp only [hn, ne_eq, not_true_eq_false, if_false, L.dec_enc]
 
 theorem decrypt_save (L : Laws C) (p : Bytes) (sk : C.SK) (salt nonce : Bytes) (hs : salt ≠ [])
     (hn : nonce.length = nonceSize) : decrypt C p (save C p sk salt nonce) = .ok (C.privBytes sk) := by
+  have hs0 : ¬ (salt.length = 0 ∧ p.length = 0) := fun h => hs (List.length_eq_zero_iff.mp h.1)
   unfold decrypt save
-  simp only [fld, Option.getD_some, deriveKey_salted p salt hs, hn, ne_eq, not_true_eq_false, if_false, L.dec_enc]
+  simp only [fld, Option.getD_some, if_neg hs0, deriveKey_salted p salt hs, hn, ne_eq, not_true_eq_false, if_false,
+    gcmOpen_enc L _ _ _ hn]
+
+/-! ### the behaviour before the repair (`decryptPre`/`loadPre`) -/
+
+/-- the unguarded code panicked exactly on the two inputs the guards now reject -/
+theorem decryptPre_isPanic (p : Bytes) (f : File C) :
+    (decryptPre C p f).isPanic = true ↔ ((p = [] ∧ fld f.salt = []) ∨ (fld f.nonce).length ≠ nonceSize) := by
+  unfold decryptPre
+  by_cases hg : p = [] ∧ fld f.salt = []
+  · rw [hg.1, hg.2, deriveKey_legacy, legacyKey_nil]
+    exact ⟨fun _ => Or.inl ⟨rfl, rfl⟩, fun _ => rfl⟩
+  · have hp : p ≠ [] ∨ fld f.salt ≠ [] := by
+      by_cases hp : p = []
+      · right; intro hs; exact hg ⟨hp, hs⟩
+      · exact Or.inl hp
+    have hk := deriveKey_isSome (C := C) p (fld f.salt) hp
+    cases hd : deriveKey C p (fld f.salt) with
+    | none => rw [hd] at hk; cases hk
+    | some k =>
+      simp only
+      rw [gcmOpen_isPanic]
+      exact ⟨fun h => Or.inr h, fun h => h.elim (fun h => absurd h hg) id⟩
+
+/-- where the guards pass, the guarded and the unguarded code are the same function -/
+theorem decrypt_eq_pre (p : Bytes) (f : File C) (h1 : ¬ ((fld f.salt).length = 0 ∧ p.length = 0))
+    (h2 : (fld f.nonce).length = nonceSize) : decrypt C p f = decryptPre C p f := by
+  unfold decrypt decryptPre
+  rw [if_neg h1]
+  cases deriveKey C p (fld f.salt) with
+  | none => rfl
+  | some k => simp only [h2, ne_eq, not_true_eq_false, if_false]
+
+theorem decrypt_ok_pre {p : Bytes} {f : File C} {m : Bytes} (h : decrypt C p f = .ok m) : decryptPre C p f = .ok m := by
+  have h1 : ¬ ((fld f.salt).length = 0 ∧ p.length = 0) := by
+    intro hh; unfold decrypt at h; rw [if_pos hh] at h; cases h
+  obtain ⟨_, _, _, h2, _, _⟩ := decrypt_ok_inv h
+  rw [← decrypt_eq_pre p f h1 h2]; exact h
 
 theorem consistent_iff (L : Laws C) (s : Signer C) : s.Consistent ↔ s.pk = C.pubOf s.sk := by
   constructor
   · intro h; exact L.verify_own _ _ [] (h [])
   · intro h m; rw [h]; exact L.verify_sign _ _
+
+theorem pubBytes_inj (L : Laws C) {a b : C.PK} (h : C.pubBytes a = C.pubBytes b) : a = b := by
+  have := L.parsePub_pubBytes a
+  rw [h, L.parsePub_pubBytes] at this
+  exact (Option.some.inj this).symm
+
+theorem loadPre_ok_inv {p : Bytes} {f : File C} {s : Signer C} (h : loadPre C p f = .ok s) :
+    ∃ m, decryptPre C p f = .ok m ∧ C.parsePriv m = some s.sk ∧ C.parsePub (fld f.pub) = some s.pk := by
+  unfold loadPre at h
+  split at h
+  · cases h
+  · cases h
+  · next m hm =>
+    split at h
+    · cases h
+    · next sk hsk =>
+      split at h
+      · cases h
+      · next pk hpk => cases h; exact ⟨m, hm, hsk, hpk⟩
 
 end Proofs.C19
